@@ -39,9 +39,10 @@ LEAN = {"module": "Pygom.Props.C09", "extra_modules": ["Pygom.Lemmas.Params"],
                      "Pygom.C09.pairs_unmentioned_binds_zero", "Pygom.C09.legacy_rejected_dict_leaks_counterexample",
                      "Pygom.C09.legacy_time_symbol_commits_counterexample", "Pygom.C09.history_binding_legacy_counterexample",
                      "Pygom.C09.copies_bind_by_name", "Pygom.C09.restore_preserves_abs", "Pygom.C09.setstate_rebuild_counterexample",
+                     "Pygom.C09.early_exit_input_order_counterexample",
                      "Pygom.Params.unrollPure_get", "Pygom.Params.lv_dset", "Pygom.Params.Inv_dset", "Pygom.Params.lv_foldl_dset"]}
-BUDGET = {"quick": {"models": 900, "malformed": 600, "max_ops": 8},
-          "thorough": {"models": 12000, "malformed": 8000, "max_ops": 20}}
+BUDGET = {"quick": {"models": 900, "malformed": 600, "coincide": 300, "max_ops": 8},
+          "thorough": {"models": 12000, "malformed": 8000, "coincide": 4000, "max_ops": 20}}
 RULE = ("random model definitions (shared generator, lambda back-end; an extra event is added for every parameter that would "
         "not occur in the ODE) x random histories of 1-8 (thorough 1-20) assignments: list/tuple/ndarray (1-d, column), "
         "permuted pair lists (str / ODEVariable names), full and partial dicts (str / sympy.Symbol keys, any order, any "
@@ -58,7 +59,13 @@ RULE = ("random model definitions (shared generator, lambda back-end; an extra e
         "after EVERY operation EVERY live instance is evaluated (state passed as list / tuple / ndarray / list of numpy "
         "scalars, time as float / numpy float) and judged against its own name -> value map, and instances not addressed "
         "must evaluate exactly as before.  In half of the cases a second model built from the same definition (same names) "
-        "is assigned other values and evaluated between every assignment and the evaluations.  A case is non-trivial when "
+        "is assigned other values and evaluated between every assignment and the evaluations.  300 further cases (thorough 4000) are "
+        "VALUE COINCIDENCES on one instance: a full assignment (values distinct / partly repeated / partly 0 / all equal), then "
+        "accepted assignments whose numbers coincide with the numbers held: names written in a non-declared order (rotation, "
+        "swap, reversal, the order of the previous by-name assignment) with values that, read in the written order, are the held "
+        "values in declared order (pairs, full dict, partial dict of the changed names); the held values permuted and given "
+        "positionally; the identical map again in another form and order; one value for several names; zeros; partial dicts "
+        "swapping the values of two or three names or re-assigning held values (tags coincide:*).  A case is non-trivial when "
         "the history contains an accepted permuted or partial assignment")
 ASSUMPTIONS = ["the setter variant (atomic or not: does a rejected assignment leave _parameters/_paramValue touched) is MEASURED on the "
                "tree under test by a fixed two-assignment probe through the public getter and ode(); the theorems cover both variants: "
@@ -321,18 +328,204 @@ def gen_case(rng, budget, malformed, copies=None):
             "xforms": [[rng.choice(EVAL_FORMS), rng.choice(EVAL_TFORMS)] for _ in range(len(hist) + 1)]}
 
 
+# ---- value coincidences -------------------------------------------------------------------------------------
+# The regular stream draws a fresh number for every (name, assignment), so an assignment never "looks like" the values
+# already held.  These cases make it do so on purpose: the name -> value binding of the property is about NAMES, whatever
+# the numbers happen to be.  (In Params.lean the setter unrolls by name unconditionally - `binding_refines_spec` holds for
+# every value; `early_exit_input_order_counterexample` shows what a "nothing changed" test on the values in INPUT order
+# would do.)
+COINCIDE_KINDS = [("perm_input_order", 5), ("multiset_positional", 3), ("same_map_other_format", 3), ("repeat_values", 2),
+                  ("zeros", 2), ("partial_swap", 3), ("partial_same", 1)]
+
+
+def _perm(rng, n):
+    """a non-identity permutation of range(n): rotation, swap of two, reversal, random"""
+    if n < 2:
+        return list(range(n))
+    for _ in range(20):
+        how = rng.choice(["rotate", "swap", "reverse", "random"])
+        idx = list(range(n))
+        if how == "rotate":
+            k = rng.randint(1, n - 1)
+            idx = idx[k:] + idx[:k]
+        elif how == "swap":
+            i, j = rng.sample(range(n), 2)
+            idx[i], idx[j] = idx[j], idx[i]
+        elif how == "reverse":
+            idx.reverse()
+        else:
+            rng.shuffle(idx)
+        if idx != list(range(n)):
+            return idx
+    return list(range(n))[::-1]
+
+
+def _by_name_op(rng, names, values, elt, full, n):
+    """the map names[i] -> values[i], WRITTEN in the order of `names`, as a pair list or a dict"""
+    if full and rng.random() < 0.55:
+        return {"k": "pairs", "seq": rng.choice(["list", "tuple"]), "elt": elt, "scribble": False,
+                "ps": [[_key(rng, nm, ("str", "str", "str", "odevar")), v] for nm, v in zip(names, values)], "cls": "pairs_perm"}
+    kinds = rng.choice([("str",), ("sym",), ("str", "sym")])
+    return {"k": "dict", "elt": elt, "scribble": False, "es": [[_key(rng, nm, kinds), v] for nm, v in zip(names, values)],
+            "cls": "dict_full" if len(names) == n else "dict_partial"}
+
+
+def gen_base_op(rng, params, V):
+    """a full assignment whose values are distinct / partly repeated / partly zero / all equal"""
+    n = len(params)
+    style = gen.wchoice(rng, [("distinct", 4), ("repeat", 2), ("zeros", 2), ("all_equal", 1)])
+    vals = V.many(n)
+    if style == "repeat" and n >= 2:
+        i, j = rng.sample(range(n), 2)
+        vals[j] = vals[i]
+    elif style == "zeros":
+        for i in rng.sample(range(n), rng.randint(1, n)):
+            vals[i] = "0"
+    elif style == "all_equal":
+        vals = [vals[0]] * n
+    elt = rng.choice(["float", "float", "np_float64", "mixed"])
+    form = rng.choice(["nums", "arr", "byname", "byname"])
+    if form == "nums":
+        op = {"k": "nums", "seq": rng.choice(["list", "tuple"]), "vals": vals, "elt": elt, "scribble": False, "cls": "nums"}
+    elif form == "arr":
+        op = {"k": "arr", "shape": "1d", "len": n, "flat": vals, "dtype": "float64", "scribble": False, "cls": "arr_1d"}
+    else:
+        order = list(range(n))
+        if rng.random() < 0.7:
+            order = _perm(rng, n)
+        op = _by_name_op(rng, [params[i] for i in order], [vals[i] for i in order], elt, True, n)
+        if op["k"] == "pairs" and order == list(range(n)):
+            op["cls"] = "pairs_inorder"
+    op["coin"] = "base:" + style
+    return op
+
+
+def gen_coincide_op(rng, params, cur, order, V):
+    """an ACCEPTED assignment whose numbers coincide with the numbers the model holds (`cur`: name -> value as the
+    property's spec gives it; `order`: the order in which the last full by-name assignment was written)"""
+    n = len(params)
+    held = [str(cur[p]) for p in params]                   # the held values in DECLARED order
+    kind = gen.wchoice(rng, COINCIDE_KINDS)
+    elt = rng.choice(["float", "float", "np_float64", "mixed"])
+    if n < 2 and kind in ("perm_input_order", "multiset_positional", "partial_swap", "repeat_values"):
+        kind = rng.choice(["same_map_other_format", "zeros"])
+    if kind == "perm_input_order":
+        # written in a non-declared order; the values READ IN THE WRITTEN ORDER are the held values in declared order
+        sigma = [params.index(nm) for nm in order] if (order != list(params) and rng.random() < 0.5) else _perm(rng, n)
+        names = [params[i] for i in sigma]
+        full = rng.random() < 0.7
+        if full:
+            op = _by_name_op(rng, names, held, elt, True, n)
+        else:
+            # the same map as a partial dict: only the names whose value changes
+            ch = [(nm, v) for nm, v in zip(names, held) if Fraction(v) != cur[nm]] or list(zip(names, held))[:1]
+            op = _by_name_op(rng, [a for a, _ in ch], [b for _, b in ch], elt, False, n)
+    elif kind == "multiset_positional":
+        # the held values, permuted, given positionally (or by name in declared order): same multiset, other binding
+        sigma = _perm(rng, n)
+        vals = [held[i] for i in sigma]
+        if rng.random() < 0.6:
+            op = ({"k": "nums", "seq": rng.choice(["list", "tuple"]), "vals": vals, "elt": elt, "scribble": False, "cls": "nums"}
+                  if rng.random() < 0.6 else
+                  {"k": "arr", "shape": "1d", "len": n, "flat": vals, "dtype": "float64", "scribble": False, "cls": "arr_1d"})
+        else:
+            op = _by_name_op(rng, list(params), vals, elt, True, n)
+            if op["k"] == "pairs":
+                op["cls"] = "pairs_inorder"
+    elif kind == "same_map_other_format":
+        # the identical name -> value map again, in another form / order: nothing may change
+        form = rng.choice(["nums", "arr", "byname", "byname"])
+        if form == "nums":
+            op = {"k": "nums", "seq": rng.choice(["list", "tuple"]), "vals": held, "elt": elt, "scribble": False, "cls": "nums"}
+        elif form == "arr":
+            op = {"k": "arr", "shape": "1d", "len": n, "flat": held, "dtype": "float64", "scribble": False, "cls": "arr_1d"}
+        else:
+            sigma = _perm(rng, n)
+            op = _by_name_op(rng, [params[i] for i in sigma], [held[i] for i in sigma], elt, True, n)
+    elif kind == "repeat_values":
+        # one held value given to several names (by name, any order)
+        v = rng.choice(held)
+        sigma = _perm(rng, n)
+        k = rng.randint(2, n)
+        names = [params[i] for i in sigma]
+        vals = [v if i < k else held[sigma[i]] for i in range(n)]
+        op = _by_name_op(rng, names, vals, elt, True, n)
+    elif kind == "zeros":
+        m = rng.randint(1, n)
+        names = rng.sample(list(params), m)
+        if rng.random() < 0.5:
+            op = _by_name_op(rng, names, ["0"] * m, elt, False, n)
+        else:
+            vals = ["0" if p in names else str(cur[p]) for p in params]
+            sigma = _perm(rng, n) if n >= 2 else [0]
+            op = _by_name_op(rng, [params[i] for i in sigma], [vals[i] for i in sigma], elt, True, n)
+    elif kind == "partial_swap":
+        # a partial dict that gives some names the values OTHER names hold (a swap or a 3-cycle)
+        k = rng.randint(2, min(3, n))
+        names = rng.sample(list(params), k)
+        vals = [str(cur[nm]) for nm in names[1:] + names[:1]]
+        op = _by_name_op(rng, names, vals, elt, False, n)
+    else:
+        m = rng.randint(1, n)
+        names = rng.sample(list(params), m)
+        op = _by_name_op(rng, names, [str(cur[nm]) for nm in names], elt, False, n)
+    op["coin"] = kind
+    return op
+
+
+def gen_coincide_case(rng, budget):
+    """one instance; a full assignment, then assignments whose numbers coincide with the held ones (permutations,
+    repeats, zeros, the same map in another form), now and then a fresh full assignment or a malformed one in between"""
+    for _ in range(6):
+        spec, meta = gen.gen_model(rng, allow_range=True)
+        if len(meta["params"]) >= 2:
+            break
+    ensure_all_params_used(rng, spec, meta)
+    params = meta["params"]
+    V = Vals(rng)
+    hist, cur, order = [], None, list(params)
+    nops = rng.randint(2, max(2, min(budget["max_ops"], 7)))
+    for _ in range(nops):
+        u = rng.random()
+        if cur is None or u < 0.15:
+            op = gen_base_op(rng, params, V)
+        elif u < 0.22:
+            op = gen_malformed_op(rng, params, V)
+        else:
+            op = gen_coincide_op(rng, params, cur, order, V)
+        op["inst"] = 0
+        verdict, new = oracle_step(params, cur, op)          # the generator follows the property's own spec
+        if verdict == "accept":
+            cur = new
+            if op["k"] == "pairs" or (op["k"] == "dict" and len(op["es"]) == len(params)):
+                order = [r[1] for r, _ in (op["ps"] if op["k"] == "pairs" else op["es"])]
+            elif op["k"] in ("nums", "arr"):
+                order = list(params)
+        elif verdict == "either":
+            cur = None if (new is None or any(v is None for v in new.values())) else new
+        hist.append(op)
+    pt = gen.rand_point(rng, meta)
+    return {"spec": spec, "meta": meta, "history": hist, "malformed": False, "coincide": True,
+            "point": {k: str(v) for k, v in pt.items() if k in meta["states"] or k == "t"},
+            "decoy": rng.random() < 0.3,
+            "xforms": [[rng.choice(EVAL_FORMS), rng.choice(EVAL_TFORMS)] for _ in range(len(hist) + 1)]}
+
+
 def make_cases(rng, tier, budget):
     cases = []
     for i in range(budget["models"]):
         cases.append(gen_case(random.Random(rng.getrandbits(64)), budget, False))
     for i in range(budget["malformed"]):
         cases.append(gen_case(random.Random(rng.getrandbits(64)), budget, True))
+    for i in range(budget.get("coincide", 0)):
+        cases.append(gen_coincide_case(random.Random(rng.getrandbits(64)), budget))
     return cases
 
 
 def search_cases(rng, tier, budget):
-    return [gen_case(random.Random(rng.getrandbits(64)), budget, i % 2 == 0, copies=(i % 3 != 2))
-            for i in range(3 * (budget["models"] + budget["malformed"]))]
+    out = [gen_case(random.Random(rng.getrandbits(64)), budget, i % 2 == 0, copies=(i % 3 != 2))
+           for i in range(3 * (budget["models"] + budget["malformed"]))]
+    return out + [gen_coincide_case(random.Random(rng.getrandbits(64)), budget) for _ in range(3 * budget.get("coincide", 0))]
 
 
 # ----------------------------------------------------------------------------------------------
@@ -890,6 +1083,8 @@ def run_case(case):
             tags.append("op:%s:%s" % (op["cls"], "accepted" if accepted else perr))
             if accepted and (op.get("elt") or op.get("dtype")):
                 tags.append("elt:%s" % (op.get("elt") or op.get("dtype")))
+            if op.get("coin"):
+                tags.append("coincide:%s:%s" % (op["coin"], "accepted" if accepted else perr))
             if inst["origin"] != "built":
                 tags.append("assign_to_copy")
             # the caller's container: untouched by the setter; then (scribble) re-used by the caller
@@ -960,6 +1155,8 @@ def run_case(case):
         tags.append("instances=%d" % len(insts))
     if case.get("malformed"):
         tags.append("stream:malformed")
+    elif case.get("coincide"):
+        tags.append("stream:coincide")
     else:
         tags.append("stream:regular")
     return {"nontrivial": nontrivial, "mismatches": mism, "violations": viol, "tags": sorted(set(tags)),
